@@ -7,9 +7,30 @@ type WaitGroup = mcrt.WaitGroup
 type Mutex = mcrt.Mutex
 type RWMutex = mcrt.Mutex
 type Once = mcrt.Once
+type Cond = mcrt.Cond
+type Pool = mcrt.Pool
+type Map = mcrt.Map
 
 // Locker mirrors sync.Locker.
-type Locker interface {
-	Lock()
-	Unlock()
+type Locker = mcrt.Locker
+
+func NewCond(l Locker) *Cond { return mcrt.NewCond(l) }
+
+// OnceFunc, OnceValue, OnceValues mirror the Go 1.21 helpers (a panic in f is not replayed on later calls).
+func OnceFunc(f func()) func() {
+	var o Once
+	return func() { o.Do(f) }
+}
+
+func OnceValue[T any](f func() T) func() T {
+	var o Once
+	var v T
+	return func() T { o.Do(func() { v = f() }); return v }
+}
+
+func OnceValues[T1, T2 any](f func() (T1, T2)) func() (T1, T2) {
+	var o Once
+	var v1 T1
+	var v2 T2
+	return func() (T1, T2) { o.Do(func() { v1, v2 = f() }); return v1, v2 }
 }
